@@ -2,7 +2,8 @@
 # Extract the executable models and build the OCaml driver.
 #   tools/build_driver.sh            -> all Exec/*_ops.v  -> /verif/build/ocaml/driver
 #   tools/build_driver.sh C03 C16    -> only those ops    -> /verif/build/ocaml-C03-C16/driver  (development)
-# Extraction uses ExtrOcamlBasic only; no Extract Constant / Extract Inductive of our own.
+# Extraction uses the standard library's ExtrOcamlBasic and ExtrOcamlZBigInt (Z/positive/N -> zarith big integers;
+# directives listed in /usr/lib/ocaml/coq/theories/extraction/ExtrOcamlZBigInt.v); plus ONE Extract Constant of our own (Pos.ggcd -> zarith gcd, see below).
 set -e
 V=/verif
 if [ $# -gt 0 ]; then MODS="$@"; OUT=$V/build/ocaml-$(echo "$@" | tr ' ' '-'); else
@@ -12,13 +13,16 @@ exec 8>$OUT/.lock
 flock 8
 cd $OUT
 if [ -x driver ] && [ -z "$(find $V/coq/theories/Exec $V/coq/theories/Model $V/coq/theories/Core $V/ocaml $V/tools/build_driver.sh -newer driver \( -name '*.vo' -o -name '*.ml' -o -name '*.sh' \) | head -1)" ] && [ "$(cat mods.txt 2>/dev/null)" = "$MODS" ]; then exit 0; fi
-{ echo "From Coq Require Import ExtrOcamlBasic List ZArith Qcanon."
+{ echo "From Coq Require Import ExtrOcamlBasic ExtrOcamlZBigInt List ZArith Qcanon."
   echo "From QV.Exec Require Import Base."
   for m in $MODS; do echo "From QV.Exec Require ${m}_ops."; done
   echo "Definition ops : optable := nil"; for m in $MODS; do echo "  ++ ${m}_ops.${m}_ops"; done; echo "."
   echo "Definition run (name : string) (zs : list Z) (qs : list Qc) : res := run_table ops name zs qs."
+  # the ONE extraction directive of our own: Coq's binary gcd on big integers is quadratic and dominates
+  # every Qc operation; it is replaced by zarith's gcd (same specification: (g, (a/g, b/g)), g = gcd a b).
+  echo 'Extract Constant Pos.ggcd => "(fun a b -> let g = Z.gcd a b in (g, (Z.divexact a g, Z.divexact b g)))".'
   echo 'Extraction "model.ml" run rat_make rat_num rat_den.'; } > Extract.v
 timeout 900 coqc -Q $V/coq/theories QV Extract.v >/dev/null
 cp $V/ocaml/driver.ml .
-timeout 900 ocamlfind ocamlopt -w -a -inline 100 -O3 model.mli model.ml driver.ml -o driver 2>/dev/null || timeout 900 ocamlfind ocamlopt -w -a -inline 100 model.mli model.ml driver.ml -o driver
+timeout 900 ocamlfind ocamlopt -w -a -inline 100 -package zarith -linkpkg model.mli model.ml driver.ml -o driver
 echo "$MODS" > mods.txt
